@@ -74,25 +74,3 @@ Print Assumptions rename_bijective_loses_no_block.
 Theorem rename_never_raises : forall g m, Inv g -> exists g', rename_blocks g m = Ok g'.
 Proof. exact rename_blocks_total. Qed.
 Print Assumptions rename_never_raises.
-
-(** the three preconditions cannot be dropped: the faithful model carries the listed findings *)
-Theorem add_block_replacing_connected_block_breaks_inv :
-  exists g n rk g', Inv g /\ add_block g n rk = Ok g' /\ ~ Inv g'.
-Proof. exact add_block_replace_refuted. Qed.
-Print Assumptions add_block_replacing_connected_block_breaks_inv.
-Theorem delete_rocktype_in_use_breaks_inv :
-  exists g n g', Inv g /\ delete_rocktype g n = Ok g' /\ ~ Inv g'.
-Proof. exact delete_rocktype_in_use_refuted. Qed.
-Print Assumptions delete_rocktype_in_use_breaks_inv.
-Theorem rename_rocktype_with_stale_object_breaks_inv :
-  exists g a b g', Inv g /\ rename_rocktype g a b = Ok g' /\ ~ Inv g'.
-Proof. exact rename_rocktype_stale_refuted. Qed.
-Print Assumptions rename_rocktype_with_stale_object_breaks_inv.
-
-(** the hypotheses are met by a non-trivial grid: two connected blocks, renamed by a swap *)
-Theorem example_pair_consistent : Inv g_pair.
-Proof. exact g_pair_inv. Qed.
-Print Assumptions example_pair_consistent.
-Theorem example_swap_is_one_to_one : inj_on_blocks g_pair [(a1, b1); (b1, a1)].
-Proof. exact swap_is_injective. Qed.
-Print Assumptions example_swap_is_one_to_one.
